@@ -82,7 +82,7 @@ def w2_tasks(tier, seed, heavy=1):
     for sl in range(4): t.append(('w2', 't5', sl, 4, tier, seed))
     for sk, gk in F.t3_shards(1, 1, F.T3_KINDS_QUICK): t.append(('w2', ('t3', 1, sk, gk), 0, 1, tier, seed))
     t.append(('w2', 'wide', 0, 1, tier, seed))
-    for sl in range(7): t.append(("w2", "big", sl, 7, tier, seed))
+    for sl in range(12): t.append(("w2", "big", sl, 12, tier, seed))
     if tier == 'thorough':
         for sk, gk in F.t3_shards(1, 2, ['NAND2', 'XOR2', 'MUX21']): t.append(('w2', ('t3', 1, sk, gk), 0, 1, tier, seed))
         for sk, gk in F.t3_shards(0, 2, F.T3_KINDS_QUICK): t.append(('w2', ('t3', 2, sk, gk), 0, 1, tier, seed))
